@@ -28,6 +28,7 @@ EXPLANATION = (
     "interpretation of Model.__or__ over (Intercept present, NegatedIntercept present), and every factor term is "
     "paired. R5.6 no effect object is placed under two factors. Not decided: rank/span on crossed data and the "
     "equality of the effect coding with the common-effects rule (the anchor itself calls it a simplification)."
+    " R5.8 the contrast obligations of C04's R4.2 (reduced coding drops exactly the reference level, full coding is the identity)."
 )
 ASSUMPTIONS = [
     "scipy.linalg.khatri_rao(A, B) is the column-wise Kronecker product with A's row index major",
@@ -231,12 +232,29 @@ def r5_4(prog, rep):
         return
     A = f"isinstance({t}.expr, Intercept)"
     E = f"any(_u.factor == {t}.factor and isinstance(_u.expr, Intercept) for _u in self.group_terms)"
-    atoms_n = [E if _exists_group_intercept(f, lp, a, t) else a for a in atoms]
+    # membership in a list is the existence of an equal element: `X in L` == any(u == X for u in L); `not in` is its negation
+    pol = {}
+    atoms_n = []
+    for a in atoms:
+        txt, sign = a, 1
+        try:
+            ae = ast.parse(a, mode="eval").body
+        except SyntaxError:
+            ae = None
+        if isinstance(ae, ast.Compare) and len(ae.ops) == 1 and isinstance(ae.ops[0], (ast.In, ast.NotIn)) and isinstance(ae.comparators[0], ast.Name):
+            sign = -1 if isinstance(ae.ops[0], ast.NotIn) else 1
+            txt = f"any(_u == {unparse(ae.left)} for _u in {ae.comparators[0].id})"
+        if _exists_group_intercept(f, lp, txt, t):
+            atoms_n.append(E)
+            pol[E] = sign
+        else:
+            atoms_n.append(a)
     ok = sorted(atoms_n) == sorted([A, E])
     if ok:
         ia, ie = atoms_n.index(A), atoms_n.index(E)
         for vals, res in table.items():
-            if res != (vals[ia] or not vals[ie]):
+            exists = vals[ie] if pol.get(E, 1) > 0 else not vals[ie]
+            if res != (vals[ia] or not exists):
                 ok = False
     obl(rep, f, calls[0][1][2], "R5.4", ok,
         "the effect is coded in full unless it is not an intercept and a group intercept (1|same factor) is in the model, searched over all group terms",
